@@ -335,20 +335,26 @@ impl<'a> CompilerState<'a> {
         }
     }
 
-    fn parse_identifier(&'a self, pairs: Pairs<'a, Rule>) -> Result<(String, Box<Expr>), Error> {
+    // first_literal: the number the first string literal met in the subscript gets (see parse_expr_ex_from);
+    // the literals met are returned with the identifier
+    fn parse_identifier(
+        &'a self,
+        pairs: Pairs<'a, Rule>,
+        first_literal: usize,
+    ) -> Result<(String, Box<Expr>, HashMap<String, String>), Error> {
         let mut p = pairs;
         let px = p.next().unwrap();
         let varname = px.as_str();
-        let subscript = match p.next() {
+        let (subscript, literals) = match p.next() {
             Some(pair) => {
-                let expr = self.parse_expr_ex(pair.into_inner())?;
-                Box::new(expr.0)
+                let expr = self.parse_expr_ex_from(pair.into_inner(), first_literal)?;
+                (Box::new(expr.0), expr.1)
             }
-            None => Box::new(Expr::Nothing),
+            None => (Box::new(Expr::Nothing), HashMap::new()),
         };
         if varname.eq("X") || varname.eq("Y") {
             match *subscript {
-                Expr::Nothing => return Ok((varname.into(), subscript)),
+                Expr::Nothing => return Ok((varname.into(), subscript, literals)),
                 _ => {
                     return Err(self.syntax_error(
                         &format!("No subscript for {} index", varname),
@@ -361,10 +367,10 @@ impl<'a> CompilerState<'a> {
         match self.in_scope_variables.last() {
             Some(vars) => {
                 match vars.get(varname) {
-                    Some(vn) => return Ok((vn.clone(), subscript)),
+                    Some(vn) => return Ok((vn.clone(), subscript, literals)),
                     None => match self.functions.get(varname) {
                         Some(_var) => match *subscript {
-                            Expr::Nothing => Ok((varname.into(), subscript)),
+                            Expr::Nothing => Ok((varname.into(), subscript, literals)),
                             _ => Err(self
                                 .syntax_error("No subscript for functions", px.as_span().start())),
                         },
@@ -377,10 +383,10 @@ impl<'a> CompilerState<'a> {
             }
             None => {
                 match self.variables.get(varname) {
-                    Some(_var) => Ok((varname.into(), subscript)),
+                    Some(_var) => Ok((varname.into(), subscript, literals)),
                     None => match self.functions.get(varname) {
                         Some(_var) => match *subscript {
-                            Expr::Nothing => Ok((varname.into(), subscript)),
+                            Expr::Nothing => Ok((varname.into(), subscript, literals)),
                             _ => Err(self
                                 .syntax_error("No subscript for functions", px.as_span().start())),
                         },
@@ -475,7 +481,14 @@ impl<'a> CompilerState<'a> {
                         Ok(res.0)
                     }
                     Rule::identifier => {
-                        let id = self.parse_identifier(primary.into_inner())?;
+                        let next_literal = *literal_counter.lock().unwrap();
+                        let id = self.parse_identifier(primary.into_inner(), next_literal)?;
+                        let mut lit_strs = literal_strings.lock().unwrap();
+                        for k in &id.2 {
+                            lit_strs.insert(k.0.clone(), k.1.clone());
+                        }
+                        let mut l = literal_counter.lock().unwrap();
+                        *l += id.2.len();
                         Ok(Expr::Identifier(id.0, id.1))
                     }
                     Rule::quoted_string => {
@@ -649,7 +662,14 @@ impl<'a> CompilerState<'a> {
                         Ok(res.0)
                     }
                     Rule::identifier => {
-                        let id = self.parse_identifier(primary.into_inner())?;
+                        let next_literal = *literal_counter.lock().unwrap();
+                        let id = self.parse_identifier(primary.into_inner(), next_literal)?;
+                        let mut lit_strs = literal_strings.lock().unwrap();
+                        for k in &id.2 {
+                            lit_strs.insert(k.0.clone(), k.1.clone());
+                        }
+                        let mut l = literal_counter.lock().unwrap();
+                        *l += id.2.len();
                         Ok(Expr::Identifier(id.0, id.1))
                     }
                     Rule::quoted_string => {
